@@ -8,7 +8,8 @@ model is one atomic section of the implementation (code between two checkpoints)
 only operation that spans a checkpoint is a lookup through an *asynchronous* factory,
 which is split into `get` (begin, leaves a pending generation) and `genFinish`.
 A block can also be left by cancellation (`BlockEnd.raised .cancelled`): the teardown then
-runs inside a cancelled scope (`effStack`).
+runs inside a cancelled scope (`effStack`); the cancellation may also arrive while the teardown
+is already running (`exitMid`, `midStack`).
 -/
 import AsphaltModel.Basic
 
@@ -466,6 +467,29 @@ where underCancelList : List Cb → List Cb
 def effStack (be : BlockEnd) (st : List Cb) : List Cb :=
   if be.isCancel then Cb.underCancel.underCancelList st else st
 
+/-- Cancellation that arrives while the teardown is already running (the block itself was left
+normally or by an exception): `k` identifies the directly registered callback during which the
+enclosing scope is cancelled. Everything popped before it (with whatever that registers) has
+run as usual. Callback `k` runs its body and its registrations; if it is asynchronous it is then
+cancelled at its next checkpoint and ends with the cancellation exception instead of its own
+outcome (a synchronous one has no checkpoint and ends as written). Everything that is still to
+run - what `k` registered and the rest of the stack - runs in the cancelled scope
+(`Cb.underCancel`). No callback with that id directly on the stack: nothing happens. -/
+def midStack (k : Nat) : List Cb → List Cb
+  | [] => []
+  | cb :: rest =>
+    if cb.id = k then
+      (match cb with
+       | .mk id p a body regs r =>
+         Cb.mk id p a body (Cb.underCancel.underCancelList regs) (if a then some .cancelled else r))
+        :: Cb.underCancel.underCancelList rest
+    else cb :: midStack k rest
+
+/-- The stack as it will behave when the block ended with `be` and the scope is (also) cancelled
+during callback `k`: a block that was itself left by cancellation is cancelled throughout. -/
+def midEff (be : BlockEnd) (k : Nat) (st : List Cb) : List Cb :=
+  if be.isCancel then effStack be st else midStack k st
+
 /-! ### @inject -/
 
 /-- An injected parameter after annotation resolution: `param: T = resource(name)`
@@ -529,6 +553,7 @@ inductive Op
   | new (t : TaskId) (c : CtxId) (parent : Option CtxId)
   | enter (t : TaskId) (c : CtxId)
   | exit (t : TaskId) (c : CtxId) (be : BlockEnd)
+  | exitMid (t : TaskId) (c : CtxId) (be : BlockEnd) (k : Nat)   -- … and cancelled during callback `k`
   | add (c : CtxId) (a : AddArgs)
   | addFactory (c : CtxId) (a : FacArgs)
   | getNowait (c : CtxId) (k : Key) (optional : Bool)
@@ -593,6 +618,26 @@ def step (w : World) : Op → World × List Out
       else
         let x1 := { x with state := .closing, tds := [] }
         let (x2, tr, excs) := runTeardown c (w.curOf t) be (effStack be x.tds) x1
+        let x3 := { x2 with state := .closed }
+        let w1 := (w.setCtx c x3).setCur t (x.token.getD Option.none)
+        let w2 := removeChild w1 x.parent c
+        let isRoot := x.parent.isNone
+        let outcome : Out :=
+          if !excs.isEmpty then .exitGroup excs
+          else match be with
+            | .raised e =>
+              if !isRoot && !x3.children.isEmpty then .corruption
+              else .exitOwn e (isRoot && (match e with | .exn _ => false | _ => true))
+            | .ret => if !x3.children.isEmpty then .corruption else .exitNormal
+        (w2, tr ++ [.closed, outcome])
+  | .exitMid t c be k =>
+    match w.ctx? c with
+    | Option.none => (w, [.badOp])
+    | some x =>
+      if x.state ≠ .opened then (w, [.badOp])
+      else
+        let x1 := { x with state := .closing, tds := [] }
+        let (x2, tr, excs) := runTeardown c (w.curOf t) be (midEff be k x.tds) x1
         let x3 := { x2 with state := .closed }
         let w1 := (w.setCtx c x3).setCur t (x.token.getD Option.none)
         let w2 := removeChild w1 x.parent c
